@@ -594,7 +594,7 @@ func (v *parser_) parseItems() (
 ) {
 	// Attempt to parse a sequence of associations.
 	var associations col.Sequential[col.AssociationLike[any, any]]
-	associations, _, ok = v.parseAssociations()
+	associations, token, ok = v.parseAssociations()
 	if ok {
 		var notation = Notation().Make()
 		var list = col.List[any](notation).Make()
@@ -610,7 +610,7 @@ func (v *parser_) parseItems() (
 	// Attempt to parse a sequence of values. NOTE: The values must be attempted
 	// second since it may start with a component which cannot be put back as a
 	// single token.
-	items, _, ok = v.parseValues()
+	items, token, ok = v.parseValues()
 	if ok {
 		// Found a sequence of values.
 		return items, token, true
